@@ -43,7 +43,15 @@ pub struct Metadata { _p: () }
 pub struct SystemTime { _p: () }
 #[verifier::external_body]
 pub struct IoError { _p: () }
-pub mod io { pub type Result<T> = core::result::Result<T, super::IoError>; }
+#[derive(PartialEq, Eq, Structural)]
+pub enum IoErrorKind { NotFound, Other }
+pub mod io { pub type Result<T> = core::result::Result<T, super::IoError>; pub use super::IoErrorKind as ErrorKind; }
+impl IoError {
+    pub uninterp spec fn spec_kind(&self) -> IoErrorKind;
+    #[verifier::external_body]
+    #[verifier::when_used_as_spec(spec_kind)]
+    pub fn kind(&self) -> (r: IoErrorKind) ensures r == self.spec_kind() { unimplemented!() }
+}
 impl SystemTime { pub uninterp spec fn view(&self) -> int; }
 impl PartialEqSpecImpl for SystemTime {
     open spec fn obeys_eq_spec() -> bool { true }
@@ -143,6 +151,33 @@ pub mod fs {
             old(fw).no_faults && old(fw).dirs.contains(p.pview()) ==> r is Ok,
             r is Ok ==> final(fw).exists == old(fw).exists.insert(p.pview(), false) && final(fw).dirs == old(fw).dirs.remove(p.pview()),
             r is Err ==> final(fw).exists == old(fw).exists && final(fw).dirs == old(fw).dirs,
+    { unimplemented!() }
+    /// std::fs::metadata: stat(2), FOLLOWS symbolic links.  TRUSTED.  A name that is there may still be reported NotFound (a
+    /// symbolic link whose destination does not exist); a name that is not there is always NotFound.
+    #[verifier::external_body]
+    pub fn metadata<P: PathLike>(p: &P, Tracked(fw): Tracked<&FsWorld>) -> (r: io::Result<Metadata>)
+        ensures
+            r matches Ok(md) ==> fw.is_there(p.pview()),
+            !fw.is_there(p.pview()) ==> (r matches Err(e) && e.kind() == io::ErrorKind::NotFound),
+    { unimplemented!() }
+    /// std::fs::symlink_metadata: lstat(2), the entry itself.  TRUSTED.
+    #[verifier::external_body]
+    pub fn symlink_metadata<P: PathLike>(p: &P, Tracked(fw): Tracked<&FsWorld>) -> (r: io::Result<Metadata>)
+        ensures
+            r matches Ok(md) ==> fw.is_there(p.pview()) && md.spec_is_dir() == fw.dirs.contains(p.pview()),
+            r matches Err(e) ==> (e.kind() == io::ErrorKind::NotFound) == !fw.is_there(p.pview()),
+            fw.no_faults && fw.is_there(p.pview()) ==> r is Ok,
+    { unimplemented!() }
+    /// std::fs::remove_file: unlink(2).  TRUSTED.
+    #[verifier::external_body]
+    pub fn remove_file<P: PathLike>(p: &P, Tracked(fw): Tracked<&mut FsWorld>) -> (r: io::Result<()>)
+        ensures
+            final(fw).no_faults == old(fw).no_faults, final(fw).content == old(fw).content, final(fw).dirs == old(fw).dirs,
+            final(fw).trace == old(fw).trace.push(FsOp::Unlink(p.pview())),
+            old(fw).dirs.contains(p.pview()) || !old(fw).is_there(p.pview()) ==> r is Err,
+            old(fw).no_faults && !old(fw).dirs.contains(p.pview()) && old(fw).is_there(p.pview()) ==> r is Ok,
+            r is Ok ==> final(fw).exists == old(fw).exists.insert(p.pview(), false),
+            r is Err ==> final(fw).exists == old(fw).exists,
     { unimplemented!() }
     /// rename(2): atomic replacement of the destination name.  TRUSTED.
     #[verifier::external_body]
